@@ -301,8 +301,15 @@ class Check(common.Check):
                 ops.append(f'buf {rng.randint(1, 4)} {rng.randrange(3)}')
             elif r < 0.7:
                 ops.append('node')
-            else:
+            elif r < 0.9:
                 ops.append(f'free {rng.randrange(3)} {rng.randrange(16)}')
+            else:
+                # double free through the object, typically after its number was handed out again
+                k = rng.randrange(3)
+                ops.append(f'free {k} {rng.randrange(16)}')
+                ops.append(f'{["cbus", "abus", "buf"][k]} 1 0')
+                ops.append(f'refree {k} {rng.randrange(16)}')
+                ops.append(f'{["cbus", "abus", "buf"][k]} 1 0')
         case['ops'] = ops
         return case
 
@@ -355,6 +362,8 @@ class Check(common.Check):
                 lines.append('nid 1')
             elif w[0] == 'free':
                 lines += [f'use {w[1]}', f'freelive {w[2]}']
+            elif w[0] == 'refree':
+                lines += [f'use {w[1]}', 'freenone']      # a second free() of an object: nothing happens
             else:
                 lines.append('bad')
         return lines
@@ -369,6 +378,7 @@ class Check(common.Check):
             return [first]
         res += [f'part {m.group(1)}', f'part {m.group(2)}', f'part {m.group(3)}', f'node {m.group(4)}']
         kinds = ['ControlBus', 'AudioBus', 'Buffer']
+        freed = [0, 0, 0]
         for op in case['ops']:
             w = op.split()
             if w[0] in ('abus', 'cbus', 'buf'):
@@ -392,6 +402,12 @@ class Check(common.Check):
                 l = next(it, 'missing')
                 m = re.match(r'free (\d+) -> ok', l)
                 res.append(f'free {kinds[int(w[1])]} {m.group(1)}' if m else l)
+                if m:
+                    freed[int(w[1])] += 1
+            elif w[0] == 'refree':
+                next(it, None)
+                next(it, None)
+                res.append('refree ok' if freed[int(w[1])] else 'skip')
         return res
 
     def model(self, cases):
